@@ -71,6 +71,8 @@ def instances(tier, seed):
             out.append(dict(name="compiled union#%d parsefrom=%r @1" % (i, pf), params=dict(kind="union", u=u, pf=pf, s=1, n=n, compiled=True)))
     for m in names:
         out.append(dict(name="compiled greedyrange %s @1" % m, params=dict(kind="range", m=m, s=1, n=n, compiled=True)))
+        out.append(dict(name="greedyrange discard=True %s @1" % m, params=dict(kind="range", m=m, s=1, n=n, discard=True)))
+        out.append(dict(name="end-relative pointer inside a region that starts at a non-zero offset %s" % m, params=dict(kind="regionpointer-neg", m=m, n=n)))
         for s in (0, 2):
             out.append(dict(name="pointer on a side stream %s @%d" % (m, s), params=dict(kind="sidepointer", m=m, s=s, n=n)))
         out.append(dict(name="pointer to the outer stream from inside a region %s" % m, params=dict(kind="regionpointer", m=m, n=n)))
@@ -176,6 +178,32 @@ def harness(ctx, C, p):
         ctx.check("the region's own fields are read from the region", api.and_terms([ctx.eq(v.body.x, data[2]), ctx.eq(v.body.y, mkbytes(list(data[3:2 + ln])))]))
         ctx.check("the outer stream continues right after the region", api.and_terms([ctx.eq(v.after, 2 + ln), ctx.eq(v.tail, data[2 + ln])]))
         return "ok"
+    if kind == "regionpointer-neg":
+        # a negative Pointer offset counts from the end of the stream the Pointer works on -- inside a region, from the region's end --
+        # wherever the region lies in the outer stream
+        m = MEMBERS[p["m"]]
+        d = mk(C, "Struct('h'/Bytes(2), 'p'/Prefixed(Byte, Struct('x'/Byte, 'far'/Pointer(this._._params.off, %s), 'y'/GreedyBytes)), 'after'/Tell)" % m)
+        off = ctx.int("off", -p["n"], -1)
+        st = _at(ctx, data, 0)
+        r = api.outcome(d.parse_stream, st, off=off)
+        ln = data[2]
+        fits = (ln >= 1) & (ln + 3 <= len(data))
+        if not fits:
+            ctx.check("a region that does not fit fails the parse", not r.ok)
+            return "fail"
+        ln = ctx.concretize(ln)
+        region = data[3:3 + ln]
+        target = len(region) + ctx.concretize(off)
+        if target < 0:
+            target = 0
+        ra, _ = _alone(ctx, C, m, region, target)
+        ctx.check("the Pointer succeeds iff the member parses at the end-relative target inside the region", r.ok == ra.ok)
+        if not r.ok:
+            return "fail"
+        v = r.value
+        ctx.check("the member is read at region end + offset", ctx.eq(v.p.far, ra.value))
+        ctx.check("the region's own fields and the outer position are unaffected", api.and_terms([ctx.eq(v.p.x, region[0]), ctx.eq(v.p.y, mkbytes(list(region[1:]))), ctx.eq(v.after, 3 + ln)]))
+        return "ok"
     if kind == "select":
         ms = [MEMBERS[x] for x in p["ms"]]
         src_ = "Optional(%s)" % ms[0] if p["opt"] else "Select(%s)" % ", ".join(ms)
@@ -196,7 +224,7 @@ def harness(ctx, C, p):
         return "none"
     if kind == "range":
         m = MEMBERS[p["m"]]
-        d = mk(C, "GreedyRange(%s)" % m)
+        d = mk(C, "GreedyRange(%s%s)" % (m, ", discard=True" if p.get("discard") else ""))
         if p.get("compiled"):
             d = d.compile()
         st = _at(ctx, data, s)
@@ -209,7 +237,10 @@ def harness(ctx, C, p):
             exp.append(ra.value)
             pos = p2
         ctx.check("GreedyRange never fails on element failure", r.ok)
-        ctx.check("elements are the successive member parses", ctx.eq(list(r.value), exp))
+        if p.get("discard"):
+            ctx.check("discard=True returns no elements", list(r.value) == [])
+        else:
+            ctx.check("elements are the successive member parses", ctx.eq(list(r.value), exp))
         ctx.check("position is the end of the last successful element", st.tell() == pos)
         return "n=%d" % len(exp)
     if kind == "union":
